@@ -4,7 +4,7 @@ CONSTANTS
   InitNames <- Names4
   InitConsts <- Consts4
   NamePool = {"a", "b"}
-  Focus = {"IOAppend","IOInsert","IOPop","IORemove","IOClear","IOSetItem","IODelItem","IOImul","IOIadd","IOReverse","InitSet","InitIor","InitDel","InitPop","InitPopitem","InitClear","InitAdd","Register","SetName"}
+  Focus = {"InitSetdefault","IOAppend","IOInsert","IOPop","IORemove","IOClear","IOSetItem","IODelItem","IOImul","IOIadd","IOReverse","InitSet","InitIor","InitDel","InitPop","InitPopitem","InitClear","InitAdd","Register","SetName"}
   SeedIds = {0, 1, 2, 5}
   OpGraphs = {1}
   ForeignOps = {"IOAppend", "InitAdd"}
